@@ -405,9 +405,13 @@ func c12AddedOptions(c *explore.Ctx, wopts flags.IniOptions) {
 	type base struct {
 		A string `long:"a"`
 	}
+	root := c.Bool() // the options are added to the parser's own top group (the one that holds "Application Options") instead
 	mk := func() (*flags.Parser, *string, *int) {
 		p := flags.NewParser(&base{}, flags.None)
 		g := p.Command.Group.Find("Application Options")
+		if root {
+			g = p.Command.Group
+		}
 		s, n := new(string), new(int)
 		g.AddOption(&flags.Option{LongName: "added-str", Description: "a string added with AddOption"}, s)
 		g.AddOption(&flags.Option{LongName: "added-int", ShortName: 'i'}, n)
@@ -438,11 +442,15 @@ func c12AddedOptions(c *explore.Ctx, wopts flags.IniOptions) {
 		return
 	}
 	c.Hit("options-added-with-AddOption")
+	where := "added-option"
+	if root {
+		where = "added-to-the-parser's-top-group"
+	}
 	if err != nil {
-		c.Fail("written-file-unreadable|added-option|"+c12ValueClass(v), map[string]interface{}{"file": text, "error": err.Error()})
+		c.Fail("written-file-unreadable|"+where+"|"+c12ValueClass(v), map[string]interface{}{"file": text, "error": err.Error()})
 		return
 	}
 	if *s2 != v || *n2 != 7 {
-		c.Fail("value-not-reproduced|added-option|"+c12ValueClass(v), map[string]interface{}{"file": text, "want": []interface{}{v, 7}, "got": []interface{}{*s2, *n2}})
+		c.Fail("value-not-reproduced|"+where+"|"+c12ValueClass(v), map[string]interface{}{"file": text, "want": []interface{}{v, 7}, "got": []interface{}{*s2, *n2}})
 	}
 }
